@@ -129,7 +129,7 @@ func pickCas(r *gen.Rand, st regState) int64 {
 
 func c13sequential(c *evid.Ctx) {
 	r := c.R.Fork("seq")
-	nh := c.Scale(1000, 50000)
+	nh := c.Scale(1000, 15000)
 	var alloc gen.AddrAlloc
 	n, err := srv.New(dht.ServerConfig{NoSecurity: true})
 	if err != nil {
